@@ -123,6 +123,8 @@ def make_lambda(l, nw):
         return np.full((nw, nw), float(l["value"]))
     if form == "matrix_const_f32":
         return np.full((nw, nw), float(l["value"]), dtype=np.float32)
+    if form == "matrix_const_be":
+        return np.full((nw, nw), float(l["value"])).astype(">f8")       # non-native byte order
     if form == "matrix_rand":
         rng = np.random.default_rng([int(l.get("seed", 0)), 37])
         L = rng.uniform(0, float(l["value"]), size=(nw, nw))
